@@ -1,5 +1,6 @@
 import Hls.Proofs.LineRTMore
 import Hls.Proofs.LineRTAttr
+import Hls.Proofs.DateRangeRT
 import Hls.Props.C10
 /-!
 # Every line the media writer emits reads back (`LineRT`), from conditions on the VALUE
@@ -7,8 +8,8 @@ import Hls.Props.C10
 `MediaWF p` lists, field by field, the values for which the text form is faithful (C18's domain):
 quotable strings, integers below 2^64, well-formed ranges, keys in `DecryptionKey.WF`, and — as
 explicit hypotheses — the facts about Rust's float formatting (FL2 for decimal seconds, FL1 for the
-EXT-X-START offset), the one tag whose line-level round trip is not proved here (EXT-X-DATERANGE) and the
-verbatim lines (URI, unknown tags; derived for parsed values in `ParsedWF`).
+EXT-X-START offset and float-valued client attributes) and the verbatim lines (URI, unknown tags; derived
+for parsed values in `ParsedWF`).
 -/
 namespace Hls
 
@@ -16,7 +17,7 @@ structure SegWF (s : MediaSegment) : Prop where
   keys : ∀ k, some k ∈ s.keys → (stripIv k).WF
   map : ∀ m, s.map = some m → Quotable m.uri ∧ ∀ r, m.range = some r → r.WF
   range : ∀ r, s.byte_range = some r → r.WF
-  dateRange : ∀ d, s.date_range = some d → LineRT (.dateRange d)
+  dateRange : ∀ d, s.date_range = some d → d.WF
   pdt : ∀ t, s.program_date_time = some t → '\n' ∉ t.date_time ∧ EndsOk t.date_time
   secs : parseSecs (showSecs s.duration.duration) = .ok s.duration.duration ∧ plainVal (showSecs s.duration.duration) = true
   title : ∀ x, s.duration.title = some x → trim x = x ∧ x ≠ [] ∧ '\n' ∉ x ∧ EndsOk x
@@ -91,7 +92,7 @@ theorem segment_lineRT (s : MediaSegment) (wf : SegWF s) : ∀ l ∈ s.writeLine
     · rename_i r hr; simp at hl; subst hl; exact lineRT_byteRange r (wf.range r hr)
     · simp at hl
   · split at hl
-    · rename_i d hd; simp at hl; subst hl; exact wf.dateRange d hd
+    · rename_i d hd; simp at hl; subst hl; exact lineRT_dateRange d (wf.dateRange d hd)
     · simp at hl
   · split at hl <;> simp at hl; subst hl; exact lineRT_discontinuity
   · split at hl
